@@ -85,18 +85,18 @@ func Props(c *Ctx) map[string]*Prop {
 	add(&Prop{ID: "C16",
 		Explanation: "Decides structural necessary conditions of pathname expansion on every path of Glob: directory test before a separator is appended, existence test in the literal arm, sort before return, agreement of the dot-file literal with compile's output and of the three pattern-special character sets, a separator scan that steps over escaped characters (ESC1), no panic. Which names match is value-level and not decided.",
 		Assumptions: []string{"os.File.Readdirnames contract (non-empty slice when err == nil)"},
-		Rules: []Rule{ruleGL(), ruleTB2(), ruleTB4(), ruleESC1(), ruleBRK1(), ruleNG1("pattern"),
+		Rules: []Rule{ruleGL4(), ruleGL(), ruleTB2(), ruleTB4(), ruleESC1(), ruleBRK1(), ruleNG1("pattern"),
 			pf1Rule("no index or slice reachable from Glob can panic", 10,
 				func(c *Ctx) (map[*core.Func]bool, map[*core.Func]bool) { return c.scopeOf("pattern.Glob"), nil }),
 		}})
 	add(&Prop{ID: "C11",
 		Explanation: "Decides the table side of C arithmetic: operator spellings the tokeniser recognises = the ops table (TB9a); each operator case computes `l S r` on signed 64-bit operands in that order, unary and truth tests as C defines them, constants parsed with base 0 (TB9b); the grammar's levels are C's precedence ladder with C's associativity (GR5) and the compiled tables are the grammar's (GR1, GR2); run-time faults are recovered into ArithExprError (PF5); whether side effects are executed inside reductions that C would skip (AR); and that the evaluation's outcome after a fault does not depend on the schedule: the parser stops consuming tokens (CC13) and the reported error has a deterministic winner (CC11). Numeric results are not computed.",
 		Assumptions: []string{"analysed build configuration linux/amd64 (int is 64-bit); the thorough tier re-checks the width under linux/386", "C's operator table (ISO C 6.5) is the external oracle"},
-		Rules:       []Rule{ruleLP1(), ruleGR1("interp"), ruleGR2("interp"), ruleGR5(), ruleTB9a("interp", "interp.(*lexer).lexOp", 15), ruleTB9b(), rulePF5(), ruleEF7(), ruleAR(), ruleAR3(), ruleAR6(), ruleRV1(), ruleCC13("interp"), ruleCC11("interp"), ruleCC9("interp"), ruleAR5(), ruleNG1("interp"), rulePU4()}})
+		Rules:       []Rule{ruleNUM1(), ruleLP1(), ruleGR1("interp"), ruleGR2("interp"), ruleGR5(), ruleTB9a("interp", "interp.(*lexer).lexOp", 15), ruleTB9b(), rulePF5(), ruleEF7(), ruleAR(), ruleAR3(), ruleAR6(), ruleRV1(), ruleCC13("interp"), ruleCC11("interp"), ruleCC9("interp"), ruleAR5(), ruleNG1("interp"), rulePU4()}})
 	add(&Prop{ID: "C06",
 		Explanation: "Decides race freedom and goroutine lifetime structurally for every path: goroutine roots always close their channels (CC1); every access to goroutine-touched lexer fields after a spawn is preceded by a join on all paths (CC2); every field shared between the lexer-role and parser-role functions with a write is accessed only under the mutex, atomically or as a channel operation (CC3); sends can always be abandoned, the cancel channel is closed at most once, atomics are used consistently (CC4/CC5); the here-document hand-off cannot deadlock (CC6, GR4, with the token channel a rendezvous, CC9); cancellation is observed only at the token hand-over, never polled (CC10); the error slot has a deterministic winner (CC11), a lexer that failed by itself offers no further token (CC12) and a parser that fails inside a reduction stops consuming (CC13); the bail-out does not kill the process (PF4). Which of two concurrently raised errors is returned is a schedule-dependent value and is not decided.",
 		Assumptions: []string{"the Go memory model: lock, atomic, channel and go/join edges order accesses", "roles are computed on an over-approximating call graph (reference based + CHA for interface calls)"},
-		Rules: []Rule{ruleCC15("parser", "interp"), ruleCC14("parser"), ruleCC1("parser", "interp"), ruleCC2("parser", "interp"), ruleCC3("parser", "interp"), ruleCC4("parser", "interp"), ruleCC6(), ruleGR1("parser"), ruleGR4(), rulePF4("parser", "interp"), ruleCC7(), ruleCC8("parser", "interp"), ruleCC9("parser", "interp"), ruleNG1("parser", "interp"), ruleCC10("parser", "interp"),
+		Rules: []Rule{ruleCC16(), rulePU3(), ruleCC15("parser", "interp"), ruleCC14("parser"), ruleCC1("parser", "interp"), ruleCC2("parser", "interp"), ruleCC3("parser", "interp"), ruleCC4("parser", "interp"), ruleCC6(), ruleGR1("parser"), ruleGR4(), rulePF4("parser", "interp"), ruleCC7(), ruleCC8("parser", "interp"), ruleCC9("parser", "interp"), ruleNG1("parser", "interp"), ruleCC10("parser", "interp"),
 			ruleCC11("parser", "interp"), ruleCC12("parser", "interp"), ruleCC13("parser", "interp")}})
 	add(&Prop{ID: "C10",
 		Explanation: "A complete structural argument that a non-EOF error of the source's ReadRune reaches ParseCommands' caller: the source is read in exactly one function (EF1), which records every such error when the slot is empty (EF1); no store of a syntax error can replace a recorded reader error (EF2); ParseCommands returns that slot after joining the lexer (EF3, CC2); every scanner loop leaves on a failed read instead of spinning (RC2). errors.Is on wrapped errors is not modelled (the slot stores the reader's value itself).",
@@ -115,7 +115,7 @@ func Props(c *Ctx) map[string]*Prop {
 				})}})
 	add(&Prop{ID: "C20",
 		Explanation: "Decides the write discipline of the variable store for every site: who may write vars/Args/Opts/Aliases (PU4), the read-only guard in Set (PU5), the exact set of Set callers and no Unset caller (PU6), no error return after an assignment in expandParam (PU7), no store into the AST by the expander and none into an ExecEnv by the parser (PU3), and agreement of the special-parameter sets (TB8). That Get/Walk behave as a map after arbitrary histories is a value-level property and is not decided.",
-		Rules:       []Rule{rulePU3(), rulePU4(), rulePU6(), rulePU9(), ruleTB8(), ruleGR1("interp"), ruleNG1("interp"), rulePP1(), rulePU10()}})
+		Rules:       []Rule{rulePU5b(), rulePU3(), rulePU4(), rulePU6(), rulePU9(), ruleTB8(), ruleGR1("interp"), ruleNG1("interp"), rulePP1(), rulePU10()}})
 	add(&Prop{ID: "C05",
 		Explanation: "Decides only side conditions of the print/parse round trip: every semantic AST field and every Config field is read by the printer (TB6); pending here-document frames are balanced on every path under every combination of the style bits that guard them (PU8); the operator sets of scanner and expander/printer agree (TB10); nil-encoded fields are tested against nil (TB13); the positions the printer consults to space arithmetic tokens are counted in characters and End() adds the width of the stored token (BR1, TB5), and adjacency of two tokens is decided from line and column together (PS1); nothing reachable from Fprint can panic (PF1). Whether printed text re-parses to the same tree is not decidable structurally and is not claimed.",
 		Rules: []Rule{rulePR1(), rulePS2(), ruleTB6(), rulePU8(), rulePU8b(), ruleLV1(), ruleTB10(), ruleTB13(), rulePF3("printer"), ruleBR1(), ruleTB5(), rulePS1("printer", "parser"), ruleGR1("parser"), ruleGR3(),
@@ -126,21 +126,21 @@ func Props(c *Ctx) map[string]*Prop {
 	add(&Prop{ID: "C13",
 		Explanation: "Decides the operator × state × nounset × special table of parameter expansion completely: for each of the 624 consistent valuations the outcome of every path of expandParam (value, word expanded, assignment, pattern removal, length, error kind) is extracted from the control-flow graph and compared with POSIX's table, including 'the word is expanded only when it is used' and 'assignment only under = / :=' (DT1); ${#p} counts runes (BR2); operator and special-parameter sets agree across packages (TB8, TB10, TB13); Set discipline (PU6/PU7); no panic (PF1). Field generation for $@ / $*, quoting of results and IFS joins are value-level and not decided.",
 		Assumptions: []string{"POSIX XCU 2.6.2 table frozen in the checker as oracle", "go.sh's documented Arith mode passes plain names through"},
-		Rules: []Rule{ruleQU4(), ruleQU3b(), ruleOP1(), ruleAR6(), ruleDT1(), ruleBR2(), rulePU4(), ruleNG1("interp"), rulePP1(), ruleTB8(), ruleTB10(), ruleTB13(), rulePU6(), ruleFLD1(), ruleFLD2(), rulePF5(), ruleEF7(), ruleYY1("interp"), rulePF2(), ruleTB2(), ruleSP(),
+		Rules: []Rule{ruleBR5(), ruleQU1c(), ruleQU4(), ruleQU3b(), ruleOP1(), ruleAR6(), ruleDT1(), ruleBR2(), rulePU4(), ruleNG1("interp"), rulePP1(), ruleTB8(), ruleTB10(), ruleTB13(), rulePU6(), ruleFLD1(), ruleFLD2(), rulePF5(), ruleEF7(), ruleYY1("interp"), rulePF2(), ruleTB2(), ruleSP(),
 			pf1Rule("no index/slice/assertion in the expansion functions can panic", 20,
 				func(c *Ctx) (map[*core.Func]bool, map[*core.Func]bool) {
 					return c.scopeOf("interp.(*ExecEnv).Expand"), nil
 				}), rulePU10(), ruleQU3(), ruleSM1()}})
 	add(&Prop{ID: "C02",
 		Explanation: "Decides only side conditions of 'every grammatical program is accepted': the compiled tables and actions are goyacc's output for the checked-in grammar (GR1), which is conflict-free (GR2); every nonterminal carries the dynamic types its consumers assert and the lists they index are non-empty (GR3); lexer tables and grammar agree on the terminal alphabet and every operator is scanned under its own spelling (GR6, TB9a); a reserved word is translated at every dispatch a raw word can reach (RC5); every closer pushed on the nesting stack is matched somewhere (RC6). That the context-driven lexer hands the right token class in every state, and that the grammar is POSIX's, are language-level claims and are not decided.",
-		Rules:       []Rule{ruleSIB1(), ruleHD9(), ruleBQ1(), ruleCM3(), ruleGR7(), ruleGR1("parser"), ruleGR2("parser"), ruleGR3(), ruleGR6(), ruleTB9a("parser", "parser.(*lexer).scanOp", 8), ruleRC5(), ruleRC6(), ruleRC7(), ruleTK("TK1", "TK2"), ruleHD()}})
+		Rules:       []Rule{ruleUR1(), ruleSIB1(), ruleHD9(), ruleBQ1(), ruleCM3(), ruleGR7(), ruleGR1("parser"), ruleGR2("parser"), ruleGR3(), ruleGR6(), ruleTB9a("parser", "parser.(*lexer).scanOp", 8), ruleRC5(), ruleRC6(), ruleRC7(), ruleTK("TK1", "TK2"), ruleHD()}})
 	add(&Prop{ID: "C04",
 		Explanation: "Decides that columns are counted in characters at every site that manufactures a position (taint from byte lengths/offsets to NewPos, shift and the cursor, BR1) and that End() adds the width of the token actually stored in the field (TB5). That each fixed offset equals the number of characters read since the documented character, containment and ordering of positions are value-level and not decided.",
 		Assumptions: []string{"operator and reserved-word spellings are ASCII (checked against the tables)", "Comment.End is excluded by the property's text"},
-		Rules:       []Rule{ruleNL2(), ruleLB3(), ruleESC3(), ruleESC2(), rulePS2(), ruleBR1(), ruleTB5(), ruleGR1("parser"), ruleLX("PO1"), ruleRD1(), ruleSRC2(), ruleCM3(), ruleMK1(), ruleLBK()}})
+		Rules:       []Rule{ruleUR1(), ruleNL2(), ruleLB3(), ruleESC3(), ruleESC2(), rulePS2(), ruleBR1(), ruleTB5(), ruleGR1("parser"), ruleLX("PO1"), ruleRD1(), ruleSRC2(), ruleCM3(), ruleMK1(), ruleLBK()}})
 	add(&Prop{ID: "C07",
 		Explanation: "Decides a necessary condition of 'one call, one command': the newline that ends a command is never consumed silently — the newline-swallowing scanner is called only at grammar linebreak positions and never from the raw token scanner (RC4); and the reader is only touched by read/unread so look-ahead is undone through one place (EF1). Where exactly a command ends is language-level and not decided.",
-		Rules:       []Rule{ruleCM3(), ruleTL1(), ruleLBK(), ruleHD9(), rulePS2(), ruleRC4(), ruleRC7(), ruleEF1(), ruleCC2("parser"), ruleHD(), ruleLX("HD1b"), ruleTK("SRC1"), ruleSRC2(), ruleNG1("parser")}})
+		Rules:       []Rule{rulePU3(), ruleCM3(), ruleTL1(), ruleLBK(), ruleHD9(), rulePS2(), ruleRC4(), ruleRC7(), ruleEF1(), ruleCC2("parser"), ruleHD(), ruleLX("HD1b"), ruleTK("SRC1"), ruleSRC2(), ruleNG1("parser")}})
 	add(&Prop{ID: "C08",
 		Explanation: "Decides the structure of here-document handling: announce/push/pop protocol and FIFO order (CC6), no look-ahead needed to push (GR4 with GR1), operator-dependent delimiter search, literal body iff the delimiter of that very here-document was quoted, delimiter only at column 1 (HD), every state that emits a redirection operator counts an announced here-document (HD6), no panic in the body reader (PF1). Byte-exact bodies and delimiter matching after quote removal are value-level and not decided.",
 		Rules: []Rule{ruleESC3(), ruleESC2(), ruleCC14("parser"), ruleHD9(), rulePS2(), ruleCC6(), ruleGR1("parser"), ruleGR4(), ruleHD(), ruleHD6(), ruleHD7(), ruleLBK(), ruleSRC2(), ruleLX("HD1b", "HD5"),
@@ -166,17 +166,17 @@ func Props(c *Ctx) map[string]*Prop {
 				}), ruleCM3()}})
 	add(&Prop{ID: "C09",
 		Explanation: "Decides only three side conditions of layout inertness: a comment can never make the lexer swallow the newline token (RC4) and comments inside substitutions are merged into the result on every successful path (CM1, reported by RC6); in a for header the lexer skips the linebreak after each separator before it looks for `do` (LB1). The metamorphic equalities themselves are not decidable structurally.",
-		Rules:       []Rule{ruleW1(), ruleLB3(), ruleTL1(), ruleHD9(), ruleRC4(), ruleRC6(), ruleLB1(), ruleLBK(), ruleLX("CM2"), ruleCM3(), ruleTK("TK2")}})
+		Rules:       []Rule{ruleUR1(), ruleW1(), ruleLB3(), ruleTL1(), ruleHD9(), ruleRC4(), ruleRC6(), ruleLB1(), ruleLBK(), ruleLX("CM2"), ruleCM3(), ruleTK("TK2")}})
 	add(&Prop{ID: "C14",
 		Explanation: "Decides side conditions of field splitting: quoted segments bypass the cutter, are joined as quoted and keep a field alive (SP1), unset IFS means space-tab-newline (SP2), cut offsets advance by the rune's encoded width (BR3), the two parallel slices of a field stay in step (FLD2), no panic in split (PF1). The cutter's state machine itself is value-level and not decided.",
-		Rules: []Rule{ruleQU3b(), ruleFE1(), ruleSP(), ruleFLD2(), rulePU4(), ruleNG1("interp"),
+		Rules: []Rule{ruleBR5(), ruleQU1c(), ruleQU3b(), ruleFE1(), ruleSP(), ruleFLD2(), rulePU4(), ruleNG1("interp"),
 			pf1Rule("no index/slice in split can panic", 3,
 				func(c *Ctx) (map[*core.Func]bool, map[*core.Func]bool) {
 					return c.scopeOf("interp.(*ExecEnv).split"), nil
 				}), ruleBR4(), ruleQU3()}})
 	add(&Prop{ID: "C15",
 		Explanation: "Decides structural necessary conditions of 'quoted text is literal': quoted parts are joined as quoted and expanded in Quote mode, tilde only on unquoted literals (QU1); single quotes interpret nothing (QU2); the double-quote escape set is POSIX's (TB7); the three pattern-special character sets agree so quoted characters are escaped in Pattern mode, and any pre-test that lets a quoted segment skip the escape searches for the whole set (TB4); the pattern package keeps no state between calls, so what a quoted text matches cannot depend on earlier patterns (NG1); quoted segments are never split (SP1). The end-to-end identity is value-level and not decided.",
-		Rules:       []Rule{ruleQU4(), ruleW1(), ruleESC3(), ruleESC2(), ruleQU(), ruleTB7(), ruleTB4(), ruleSP(), rulePF2(), ruleNG1("pattern", "interp"), ruleRD1(), ruleSRC2(), ruleESC1(), ruleGL()}})
+		Rules:       []Rule{ruleQU1c(), ruleQU4(), ruleW1(), ruleESC3(), ruleESC2(), ruleQU(), ruleTB7(), ruleTB4(), ruleSP(), rulePF2(), ruleNG1("pattern", "interp"), ruleRD1(), ruleSRC2(), ruleESC1(), ruleGL()}})
 	add(&Prop{ID: "C17",
 		Explanation: "Decides termination and position side conditions of alias substitution: an alias is pushed only after a membership test on the active stack (RC3), only a single unquoted literal can be substituted, assignments are recognised first, and substitution happens only at command-name / alias-continuation positions (AL1); the 'ends in a blank' test uses the scanner's blank set (TB11 in TB7); alias-driven loops are the only non-read-driven cycles (RC2); the nested lexer of a command substitution shares the alias stack, so an alias value containing `$(` is lexed as text of the alias (NL1). Equality with textual replacement is language-level and not decided.",
 		Rules:       []Rule{ruleAL4(), ruleRC3(), ruleTB7(), ruleRC2("parser"), ruleLX("AL2", "AL3"), ruleNL1(), ruleNL2(), ruleRC8()}})
